@@ -1024,6 +1024,9 @@ func isNilICMP(g genRes) bool {
 func smallResult(r *hlib.SplitMix64, pool int) genRes {
 	kind := []int{0, 0, 1, 2, 3, 4}[r.Intn(6)]
 	g := genResult(r, kind, false)
+	for isNilICMP(g) { // never produced by the scanners; String() of such a value panics (plain mode)
+		g = genResult(r, kind, false)
+	}
 	return g
 }
 
